@@ -596,6 +596,19 @@ struct FDoc<'a> {
     inner: FInner<'a>,
 }
 
+#[derive(Debug, Deserialize)]
+struct SpFInner<'a> {
+    #[serde(borrow)]
+    a: Spanned<&'a str>,
+}
+#[derive(Debug, Deserialize)]
+struct SpFDoc<'a> {
+    #[allow(dead_code)]
+    x: i32,
+    #[serde(flatten, borrow)]
+    inner: SpFInner<'a>,
+}
+
 /// Fixed probes of the borrow clause: (text, what it is, must lend?). A verbatim scalar is lent wherever it
 /// stands - behind a merge key (replayed from the anchor's buffer), as the payload of a tag-selected variant, as a
 /// mapping key, through serde's own buffering for flattened and untagged types; a scalar whose text differs from
@@ -634,6 +647,27 @@ fn borrow_probes(st: &mut Stats) -> Vec<(String, String)> {
             let t = String::from(t);
             if let Ok(r) = guard(|| serde_saphyr::from_str::<FDoc>(&t)) {
                 lend("verbatim scalar into a flattened &str field", &t, r.map(|d| Some(d.inner.a)).map_err(kind), st);
+            }
+        }
+        // block scalars that begin with blank lines (their line breaks stand in front of the place the parser
+        // names), made of blank lines only, or written at column 0 of the root
+        for t in ["--- |\n\nabc\n", "--- |+\n\n\nabc\n\n"] {
+            let t = String::from(t);
+            if let Ok(r) = guard(|| serde_saphyr::from_str::<&str>(&t)) {
+                lend("root block scalar with leading blank lines", &t, r.map(Some).map_err(kind), st);
+            }
+        }
+        for t in ["a: |+\n\n\nj: 1\n", "a: |+\n\n\n", "a: !!str\nj: 1\n", "a: !!str \n"] {
+            let t = String::from(t);
+            if let Ok(r) = guard(|| serde_saphyr::from_str::<FInner>(&t)) {
+                lend("block scalar of blank lines only / empty tagged string", &t, r.map(|d| Some(d.a)).map_err(kind), st);
+            }
+        }
+        // `Spanned<&str>` behind serde's buffering
+        {
+            let t = String::from("x: 1\na: hello\n");
+            if let Ok(r) = guard(|| serde_saphyr::from_str::<SpFDoc>(&t)) {
+                lend("plain scalar into a flattened Spanned<&str> field", &t, r.map(|d| Some(d.inner.a.value)).map_err(kind), st);
             }
         }
         let t = String::from("a: |-\n  hello\n");
